@@ -212,6 +212,28 @@ def run_api_entry_points(res, q, A, hdr, exp, scratch):
     except Exception as e:
         err = err_class(e)
     judge(res, 'query_csv', q, tcsv, A, hdr, exp, recs, gh, err)
+    # the same files with comment lines (before the header, between and after the records), read with comment_prefix
+    def commented(rows):
+        body = refcsv.ref_write(rows, ',', 'quoted_rfc')
+        return '#c1\n' + ''.join(l + '\n#c\n' for l in body.split('\n') if l != '') if all('\n' not in c for r in rows for c in r) else None
+    c1, c2 = commented(([NAMES] if hdr else []) + A), commented(([BNAMES] if hdr else []) + B)
+    if c1 is not None and c2 is not None:
+        with open(p1, 'w', newline='', encoding='utf-8') as f:
+            f.write(c1)
+        with open(p2, 'w', newline='', encoding='utf-8') as f:
+            f.write(c2)
+        err, recs, gh = None, None, None
+        try:
+            rb.query_csv(tcsv, p1, ',', 'quoted_rfc', po, ',', 'quoted_rfc', 'utf-8', [], hdr, '#')
+            with open(po, newline='', encoding='utf-8') as f:
+                lines = refcsv.ref_read(f.read(), ',', 'quoted_rfc').records
+            if exp.error is None and exp.header is not None:
+                gh, recs = (lines[0] if lines else None), lines[1:]
+            else:
+                recs = lines
+        except Exception as e:
+            err = err_class(e)
+        judge(res, 'query_csv_comment_prefix', q, tcsv, A, hdr, exp, recs, gh, err)
     if hdr:
         from rbql import rbql_sqlite
         conn = sqlite3.connect(':memory:')
@@ -473,7 +495,7 @@ def main(tier, seed):
              'the CLI in-process under 6 configurations x {file, stdin->stdout} with special-cell tables for explicit policies, and real `python -m rbql` subprocesses rotating over all configurations; non-trivial = a successful run that agrees with RefQL',
         assumptions=['results are compared after str(); expressions are type-agnostic over string cells', 'child processes run with PYTHONWARNINGS=ignore (Python 3.12 prints its own SyntaxWarning when compiling rbql_engine.py from source)'],
         extra={'cli_configurations': [list(c[:3]) + [cfg_enc(c)] for c in CLI_CFGS]},
-        min_features={'ep_query_table': 100, 'ep_query_custom_classes': 100, 'ep_query_csv': 100, 'ep_pandas': 100, 'ep_sqlite_to_csv': 50, 'ep_cli_inprocess_file': 300, 'ep_cli_inprocess_stdin': 300,
+        min_features={'ep_query_table': 100, 'ep_query_custom_classes': 100, 'ep_query_csv': 100, 'ep_query_csv_comment_prefix': 100, 'ep_pandas': 100, 'ep_sqlite_to_csv': 50, 'ep_cli_inprocess_file': 300, 'ep_cli_inprocess_stdin': 300,
                       'ep_cli_subprocess_file': 30, 'ep_cli_subprocess_stdin': 30, 'cli_failures_ok': 20, 'failing_agree': 20})
 
 
